@@ -541,29 +541,11 @@ struct Raster : Profile {
                     int cx = 1 + (int)(o.arg(5) % maxcx), cy = 1 + (int)(o.arg(6) % maxcy);
                     if (k == "readall")
                         read_region(s, di, 0, 0, 1, 1, m.w, m.h, modn(o.arg(1), 3), "whole image in session");
-                    else if (k == "writeall" && m.comp && !m.chunked && m.any_write && p.knob("unguard_comp_rewrite", 0) == 0)
-                        done = false;
                     else if (k == "writeall") {
                         write_region(s, di, 0, 0, 1, 1, m.w, m.h, (uint64_t)o.arg(1));
-                        if (m.comp && !m.chunked && p.knob("unguard_comp_read", 0) == 0) {
-                            if (GRendaccess(m.ri) == FAIL)
-                                ctx.fail("endaccess-failed", "endaccess-failed:compressed", "GRendaccess after writing a compressed image failed");
-                            m.ri = FAIL;
-                        }
                     }
                     else if (k == "read")
                         read_region(s, di, x0, y0, sx, sy, cx, cy, modn(o.arg(7), 3), "region in session");
-                    else if (m.comp && !m.chunked && m.any_write && p.knob("unguard_comp_rewrite", 0) == 0)
-                        done = false; // known finding C09-compressed-rewrite: a compressed image is written once
-                    else if (m.comp && !m.chunked) {
-                        write_region(s, di, 0, 0, 1, 1, m.w, m.h, (uint64_t)o.arg(7)); // compressed: whole images only
-                        // known finding C09-compressed-read-before-endaccess: release the image so the coder flushes
-                        if (p.knob("unguard_comp_read", 0) == 0) {
-                            if (GRendaccess(m.ri) == FAIL)
-                                ctx.fail("endaccess-failed", "endaccess-failed:compressed", "GRendaccess after writing a compressed image failed");
-                            m.ri = FAIL;
-                        }
-                    }
                     else {
                         // the property speaks of region writes (and region/strided reads): writes use stride 1
                         cx = 1 + (int)(o.arg(5) % (m.w - x0));
@@ -658,8 +640,8 @@ struct Raster : Profile {
                     done = false;
                 else if (k == "legread")
                     check_legacy(s, li, "in session");
-                else if (L.comp && p.knob("unguard_comp_rewrite", 0) == 0)
-                    done = false; // known finding C09-compressed-rewrite also holds for old-style RLE images
+                else if (L.comp && p.knob("unguard_legacy_rle_rewrite", 0) == 0)
+                    done = false; // known finding C09-legacy-rle-rewrite-lost: old-style RLE images are not rewritten
                 else {
                     int32 ri = find_legacy(s, L);
                     if (ri == FAIL)
